@@ -87,13 +87,14 @@ type vfSession struct {
 	sw     *vfSwitch
 	A, B   *vfSide
 	P      *vfPeer
+	dataSt map[*vfSide]*vfDataState
 	steps  []vfStep
 	stepN  int
 	idx    int
 	desc   map[string]any
 	start  time.Time
 	broken string // set when the harness itself lost quiescence: the run becomes inconclusive
-	mon    struct{ c03, c04, c06 bool }
+	mon    struct{ c03, c04, c06, c07 bool }
 	// expectations maintained by workloads
 	noPairPossible bool
 }
@@ -481,6 +482,9 @@ func (s *vfSession) deliver(id int, dup bool) {
 		op = "dup"
 	}
 	s.step(op, "", id, "")
+	if s.mon.c07 {
+		s.noteDataDelivery(id)
+	}
 	if _, err := s.sw.deliverID(id, dup); err != nil {
 		s.broken = err.Error()
 
@@ -548,9 +552,13 @@ func (s *vfSession) afterStep() {
 			s.monitorC03(x, sn)
 		}
 		x.prevSnapState = sn.State
+		_ = sn
 		if s.noPairPossible && (sn.Selected != "" || sn.State == ConnectionStateConnected) {
 			s.viol("C01", "connected-without-reachable-pair", fmt.Sprintf("%s reports state %s / selected %q although no candidate pair is reachable in both directions", x.name, sn.State, sn.Selected), nil)
 		}
+	}
+	if s.mon.c07 {
+		s.afterStepC07()
 	}
 }
 
